@@ -475,8 +475,14 @@ def nontrivial_key(c, obs):
         return ('open', len(o[1]), tuple(o[1][:80]))
     return None
 
+def applicable(c):
+    """does the property text demand anything of this case (False: a value the daemon cannot build)"""
+    return judge(c, [-1], '') is not None
+
 def classify(c, obs):
     tags = list(c.get('tags', []))
+    if not applicable(c):
+        tags = ['unjudged'] + ['unjudged_' + t for t in tags if t not in ('audit', 'reach', 'unreach', 'mp')]
     o = obs[0]
     if o == [-1]: tags.append('obs_panic')
     elif o == [-9]: tags.append('obs_rejected_by_harness')
